@@ -2,9 +2,11 @@
 """Import round-2 seeded changes from /tmp/seed2/<id>/out into /verif/seeded/<id>-<C|D>/ (A->C, B->D)."""
 import json, os, shutil, sys, glob
 ROOT = os.path.dirname(os.path.dirname(os.path.abspath(__file__)))
-MAP = {"A": "C", "B": "D"}
+import os as _os
+MAP = {"A": _os.environ.get("SEED_A", "C"), "B": _os.environ.get("SEED_B", "D")}
+SRC = _os.environ.get("SEED_SRC", "/tmp/seed2")
 for pid in sys.argv[1:]:
-    out = f"/tmp/seed2/{pid}/out"
+    out = f"{SRC}/{pid}/out"
     meta = json.load(open(f"{out}/meta.json"))
     for ch in meta["changes"]:
         n = ch["name"]
@@ -17,7 +19,7 @@ for pid in sys.argv[1:]:
             base = os.path.basename(f)
             if len(glob.glob(f"{out}/*demo*.rs")) == 1 or f"_{n.lower()}." in base.lower() or base.startswith(f"{n}."):
                 shutil.copy(f, d)
-        m = {"property": pid, "name": f"{pid}-{nn}", "origin": "round 2: fresh sub-agent given the property text, a scratch worktree and one-line summaries of the round-1 changes to avoid", "files": ch.get("files"), "summary": ch.get("summary"), "trigger": ch.get("trigger"),
+        m = {"property": pid, "name": f"{pid}-{nn}", "origin": "later round: fresh sub-agent given the property text, a scratch worktree and one-line summaries of the round-1 changes to avoid", "files": ch.get("files"), "summary": ch.get("summary"), "trigger": ch.get("trigger"),
              "existing_tests_run": ch.get("existing_tests_run"), "existing_tests_pass": ch.get("existing_tests_pass"), "demo_confirms_break": ch.get("demo_confirms_break")}
         json.dump(m, open(f"{d}/meta.json", "w"), indent=1)
         print("imported", d)
